@@ -448,11 +448,20 @@ class CallGraph:
                 self.n_calls += 1
                 targets = list(self.resolve(n.func, fn))
                 if not targets and isinstance(n.func, ast.Attribute):
-                    # unknown receiver: every package method of that name
-                    for mf in self.res.methods_by_name.get(n.func.attr, ()):
-                        targets.append(('func', mf))
-                    if targets:
-                        targets.append(('maybe-ext', n.func.attr))
+                    recv = n.func.value
+                    if isinstance(recv, ast.Call) and isinstance(recv.func, ast.Name) and recv.func.id == 'super':
+                        targets = self._super_targets(fn, n.func.attr)
+                    else:
+                        # unknown receiver: every package method of that name (HTTP verb methods of
+                        # request handlers are framework entry points, never called by name)
+                        names = [n.func.attr] + FRAMEWORK_DISPATCH.get(n.func.attr, [])
+                        for nm in names:
+                            for mf in self.res.methods_by_name.get(nm, ()):
+                                if nm in HTTP_VERBS and self.is_handler_class(mf.rsplit('.', 1)[0]):
+                                    continue
+                                targets.append(('func', mf))
+                        if targets:
+                            targets.append(('maybe-ext', n.func.attr))
                 if targets:
                     self.n_resolved += 1
                 else:
@@ -484,6 +493,26 @@ class CallGraph:
                                 edges.add(t[1])
             self.sites[fid] = sites
             self.edges[fid] = edges
+
+    def is_handler_class(self, cid):
+        if cid not in self.repo.classes:
+            return False
+        try:
+            full = self.res.mro_full(cid)
+        except ValueError:
+            return False
+        return any(c.startswith('ext:') and 'Handler' in c for c in full)
+
+    def _super_targets(self, fn, attr):
+        cls = self.res.class_of_method(fn)
+        if cls is None:
+            return []
+        cid = '%s:%s' % (self.repo.mod_of(cls).name, self.repo._qual[cls])
+        for c in self.res.mro(cid)[1:]:
+            for st in self.repo.classes[c].body:
+                if isinstance(st, FuncTypes) and st.name == attr:
+                    return [('func', self.repo.fid_of(st))]
+        return [('ext-method', attr)]
 
     def _flow_args(self, call, callee_fid, caller_fn, skip_self=None):
         callee = self.repo.functions[callee_fid]
@@ -555,6 +584,10 @@ class CallGraph:
                 'registry_tables': {('%s.%s' % k): sorted(t[1] for t in v)
                                     for k, v in self.tables.items()}}
 
+
+HTTP_VERBS = {'get', 'post', 'put', 'delete', 'head', 'patch', 'options'}
+# calling X on an object of a stdlib/third-party base class runs these overridable methods
+FRAMEWORK_DISPATCH = {'parse_args': ['parse_known_args']}
 
 BUILTINS = set('''abs all any bool bytes callable chr dict dir divmod enumerate filter float format
 frozenset getattr hasattr hash id int isinstance issubclass iter len list map max min next object
